@@ -976,7 +976,7 @@ func (e *c15Env) pollWaiters(out *[]map[string]any) {
 	}
 }
 
-const c15Long = 8 * time.Second
+const c15Long = 20 * time.Second
 
 var c15Modes = map[string]string{"ok": "pass", "fail": "fail"}
 
@@ -1079,7 +1079,7 @@ func (e *c15Env) step(s c15Step) (evs []map[string]any, applied bool) {
 		}
 		e.reg.setMode(false, c15Modes[r])
 		close(e.pfGate.rel)
-		e.pfGate = e.nextGate("layer.prefetch.cached", 4*c15Long)
+		e.pfGate = e.nextGate("layer.prefetch.cached", 2*c15Long)
 		e.reg.setMode(false, "pass")
 		ev["r"], ev["want"] = "hung", r
 		if e.pfGate != nil {
@@ -1153,9 +1153,9 @@ func (e *c15Env) step(s c15Step) (evs []map[string]any, applied bool) {
 			} else {
 				ev["ev"], ev["res"] = "WaitTimeout", "timeout"
 			}
-		case <-time.After(e.tmo + 4*time.Second):
+		case <-time.After(e.tmo + 12*time.Second):
 			e.wdone[w] = true
-			ev["ev"], ev["res"], ev["ms"] = "WaitHung", "hung", (e.tmo + 4*time.Second).Milliseconds()
+			ev["ev"], ev["res"], ev["ms"] = "WaitHung", "hung", (e.tmo + 12*time.Second).Milliseconds()
 		}
 	case "BgCall":
 		b := c15Int(s["b"])
@@ -1267,7 +1267,7 @@ func (e *c15Env) bgFinish(ev map[string]any, mode string) ([]map[string]any, boo
 			ev["err"] = err.Error()
 		}
 		delete(e.bret, e.brunner)
-	case <-time.After(4 * c15Long):
+	case <-time.After(2 * c15Long):
 	}
 	e.reg.setMode(true, "hold")
 	var evs []map[string]any
